@@ -464,6 +464,13 @@ class FitBase(FileIOMixin, object):
         else:
             return []
 
+    def _unfreeze_nodes_after_failed_fit(self):
+        for _node_name in set(self._get_node_names_to_freeze(True)) | set(self._get_node_names_to_freeze(False)):
+            _node = self._nexus.get(_node_name)
+            if _node.frozen:
+                _node.unfreeze()
+                _node.notify_parents()
+
     def _pre_fit_iteration(self, first_fit=False):
         for _model_err_name in self._get_node_names_to_freeze(first_fit):
             _node = self._nexus.get(_model_err_name)
@@ -1174,11 +1181,7 @@ class FitBase(FileIOMixin, object):
                 self._post_fit_iteration(runtime)
         except Exception:
             # a failed minimization must not leave the uncertainties pinned to the values they had during the fit
-            for _node_name in set(self._get_node_names_to_freeze(True)) | set(self._get_node_names_to_freeze(False)):
-                _node = self._nexus.get(_node_name)
-                if _node.frozen:
-                    _node.unfreeze()
-                    _node.notify_parents()
+            self._unfreeze_nodes_after_failed_fit()
             raise
 
         self._loaded_result_dict = None
